@@ -107,14 +107,14 @@ neutral('C19', 'n-whitespace', 'techlib.py', 'OR2X1       input(A,B)     output(
 # ------------------------------------------------------------------ C17
 mut('C17', 'len-readiness', 'circuit.py', 'if visit_count[succ] == sum(l is not None for l in succ.ins) and', 'if visit_count[succ] == len(succ.ins) and', 'C17.count')
 mut('C17', 'reverse-unguarded', 'circuit.py', '            for line in n.ins:\n                if line is None: continue\n                pred = line.driver', '            for line in n.ins:\n                pred = line.driver', 'C17.none')
-mut('C17', 'latch-not-cut', 'circuit.py', "if visit_count[succ] == sum(l is not None for l in succ.ins) and 'dff' not in succ.kind.lower() and 'latch' not in succ.kind.lower():", "if visit_count[succ] == sum(l is not None for l in succ.ins) and 'dff' not in succ.kind.lower():", ['C17.kahn', 'C17.pred'])
+mut('C17', 'latch-not-cut', 'circuit.py', "if visit_count[succ] == sum(l is not None for l in succ.ins) and 'dff' not in succ.kind.lower() and 'latch' not in succ.kind.lower():", "if visit_count[succ] == sum(l is not None for l in succ.ins) and 'dff' not in succ.kind.lower():", ['C17.kahn', 'C17.pred', 'C17.traverse'])
 mut('C17', 'case-sensitive-pred', 'circuit.py', "return list(self.io_nodes) + [n for n in self.nodes if 'dff' in n.kind.lower()]", "return list(self.io_nodes) + [n for n in self.nodes if 'DFF' in n.kind]", 'C17.pred')
-mut('C17', 'lifo-queue', 'circuit.py', '        while len(queue) > 0:\n            n = queue.popleft()\n            for line in n.outs:', '        while len(queue) > 0:\n            n = queue.pop()\n            for line in n.outs:', ['C17.kahn', 'C17.mirror'])
-mut('C17', 'level-min', 'circuit.py', 'l = level[[l.driver.index for l in n.ins if l is not None]].max() + 1', 'l = level[[l.driver.index for l in n.ins if l is not None]].min() + 1', 'C17.level')
-mut('C17', 'fanin-driver', 'circuit.py', 'marks[n] |= marks[line.reader]', 'marks[n] |= marks[line.driver]', 'C17.fanin')
+mut('C17', 'lifo-queue', 'circuit.py', '        while len(queue) > 0:\n            n = queue.popleft()\n            for line in n.outs:', '        while len(queue) > 0:\n            n = queue.pop()\n            for line in n.outs:', ['C17.kahn', 'C17.mirror', 'C17.traverse'])
+mut('C17', 'level-min', 'circuit.py', 'l = level[[l.driver.index for l in n.ins if l is not None]].max() + 1', 'l = level[[l.driver.index for l in n.ins if l is not None]].min() + 1', ['C17.level', 'C17.traverse'])
+mut('C17', 'fanin-driver', 'circuit.py', 'marks[n] |= marks[line.reader]', 'marks[n] |= marks[line.driver]', ['C17.fanin', 'C17.traverse'])
 mut('C17', 'locs-lexicographic', 'circuit.py', "path = [m[1]] + [int(v) for v in re.split(r'[_\\[\\]]+', m[2]) if len(v) > 0]", "path = [m[1]] + [v for v in re.split(r'[_\\[\\]]+', m[2]) if len(v) > 0]", 'C17.locs')
 mut('C17', 'mirror-broken', 'circuit.py', '                visit_count[pred] += 1\n', '                visit_count[pred] += 1\n                if len(pred.ins) > 3: continue\n', ['C17.mirror', 'C17.kahn'])
-mut('C17', 'enqueue-geq', 'circuit.py', 'if visit_count[pred] == sum(l is not None for l in pred.outs) and', 'if visit_count[pred] >= sum(l is not None for l in pred.outs) and', ['C17.kahn', 'C17.mirror'])
+neutral('C17', 'n-enqueue-geq', 'circuit.py', 'if visit_count[pred] == sum(l is not None for l in pred.outs) and', 'if visit_count[pred] >= sum(l is not None for l in pred.outs) and')  # equivalent: a visit count never exceeds the number of connected pins
 neutral('C17', 'n-count-idiom', 'circuit.py', 'if visit_count[succ] == sum(l is not None for l in succ.ins) and', 'if visit_count[succ] == len([l for l in succ.ins if l is not None]) and', edits=[
     dict(old='if visit_count[succ] == sum(l is not None for l in succ.ins) and', new='if visit_count[succ] == len([l for l in succ.ins if l is not None]) and'),
     dict(old='if visit_count[pred] == sum(l is not None for l in pred.outs) and', new='if visit_count[pred] == len([l for l in pred.outs if l is not None]) and')])
@@ -246,13 +246,13 @@ neutral('C06', 'n-gpu-seed-term', 'wave_sim.py', '            seed = (seed << 4)
 # ------------------------------------------------------------------ C14
 mut('C14', 'sdf-dict-collapse', 'sdf.py', '        cells = dict()\n        for cell_name, entries in (t for t in args if isinstance(t, tuple)):\n            cells.setdefault(cell_name, []).extend(entries)  # a file may have several CELL blocks per instance\n', '        cells = dict(t for t in args if isinstance(t, tuple))\n', 'C14.accumulate')
 mut('C14', 'sdf-loop-overwrite', 'sdf.py', '            cells.setdefault(cell_name, []).extend(entries)  # a file may have several CELL blocks per instance', '            cells[cell_name] = entries', 'C14.accumulate')
-mut('C14', 'polarity-swapped', 'sdf.py', "if i_pin_spec.startswith('(posedge '): i_pol_idxs = [0]\n                    elif i_pin_spec.startswith('(negedge '): i_pol_idxs = [1]", "if i_pin_spec.startswith('(posedge '): i_pol_idxs = [1]\n                    elif i_pin_spec.startswith('(negedge '): i_pol_idxs = [0]", 'C14.polarity')
+mut('C14', 'polarity-swapped', 'sdf.py', "if i_pin_spec.startswith('(posedge '): i_pol_idxs = [0]\n                    elif i_pin_spec.startswith('(negedge '): i_pol_idxs = [1]", "if i_pin_spec.startswith('(posedge '): i_pol_idxs = [1]\n                    elif i_pin_spec.startswith('(negedge '): i_pol_idxs = [0]", ['C14.polarity', 'C14.landing'])
 mut('C14', 'rise-fall-order', 'sdf.py', "IOPath = namedtuple('IOPath', ['ipin', 'opin', 'r', 'f'])", "IOPath = namedtuple('IOPath', ['ipin', 'opin', 'f', 'r'])", 'C14.triple')
 mut('C14', 'single-list-not-duplicated', 'sdf.py', '    if len(args) == 3: args.append(args[2])\n', '    if len(args) == 3: args.append([])\n', 'C14.triple')
 mut('C14', 'empty-triple-differs', 'sdf.py', '            delvals = [d if len(d) > 0 else [0, 0, 0] for d in delvals]', '            delvals = [d if len(d) > 0 else [0, 0] for d in delvals]', 'C14.triple')
 mut('C14', 'dataset-axis', 'sdf.py', '            delays[line, :] = delvals\n\n        return np.moveaxis(delays, -1, 0)', '            delays[line, :] = delvals\n\n        return np.moveaxis(delays, -1, 1)', 'C14.shape')
-mut('C14', 'iopath-output-pin', 'sdf.py', 'if line := cell.ins[tlib.pin_index(cell.kind, i_pin_spec)]:', 'if line := cell.ins[tlib.pin_index(cell.kind, o_pin_spec)]:', 'C14.pin')
-mut('C14', 'interconnect-wrong-fork', 'sdf.py', '                assert f1.outs[f2.ins[0].driver_pin] == f2.ins[0]\n                line = f2.ins[0]', '                assert f1.outs[f2.ins[0].driver_pin] == f2.ins[0]\n                line = f1.ins[0]', 'C14.pin')
+mut('C14', 'iopath-output-pin', 'sdf.py', 'if line := cell.ins[tlib.pin_index(cell.kind, i_pin_spec)]:', 'if line := cell.ins[tlib.pin_index(cell.kind, o_pin_spec)]:', ['C14.pin', 'C14.landing'])
+mut('C14', 'interconnect-wrong-fork', 'sdf.py', '                assert f1.outs[f2.ins[0].driver_pin] == f2.ins[0]\n                line = f2.ins[0]', '                assert f1.outs[f2.ins[0].driver_pin] == f2.ins[0]\n                line = f1.ins[0]', ['C14.pin', 'C14.landing'])
 mut('C14', 'grammar-instance-dropped', 'sdf.py', '        | "(INSTANCE" ID? ")"', '        | "(INSTANCE" _NOB? ")"', ['C14.shape-of-entries', 'C14.grammar', 'C14.accumulate'])
 mut('C14', 'triple-callback-renamed', 'sdf.py', '    def triple(args): return', '    def triples(args): return', 'C14.grammar')
 neutral('C14', 'n-accumulate-defaultdict-style', 'sdf.py', '            cells.setdefault(cell_name, []).extend(entries)  # a file may have several CELL blocks per instance', '            if cell_name not in cells: cells[cell_name] = []\n            cells[cell_name] += entries')
@@ -391,3 +391,15 @@ def _stored():
 
 _stored()
 mut('C06', 'gpu-transfer-also-ports', 'wave_sim.py', "    if y < ppio_start: return  # only state elements", "    # if y < ppio_start: return  # only state elements", 'C06.transfer')
+
+
+def _on_refactoring(prop, id, ref, file, old, new, rule):
+    import os
+    verif = os.path.dirname(os.path.dirname(os.path.abspath(__file__)))
+    M.append(dict(prop=prop, id=id, patch=os.path.join(verif, 'refactorings', ref, 'patch.diff'), then=[dict(file=file, old=old, new=new)], rule=rule))
+
+
+# breaks applied on top of a stored behaviour-preserving refactoring: the normalisation that accepts the refactoring must not hide them
+_on_refactoring('C02', 'hb5+wrong-invert', 'HB-5', 'logic_sim.py', 'if op == sim.AOI21: logic.bp4v_not', 'if op == sim.AO21: logic.bp4v_not', 'C02.comp')
+_on_refactoring('C02', 'hb5+wrong-pair', 'HB-5', 'logic_sim.py', 'elif op == sim.OA22 or op == sim.OAI22:', 'elif op == sim.OA22 or op == sim.OAI211:', 'C02.comp')
+_on_refactoring('C02', 'hb5+view-alias', 'HB-5', 'logic_sim.py', 'logic.bp4v_and(scratch, self.c[i1], self.c[i2])', 'logic.bp4v_and(scratch, self.c[i1], scratch)', ['C02.alias', 'C02.bool'])
